@@ -555,10 +555,15 @@ class Session:
         inner = self.build(self.integrand())
         mc = ex.MonteCarlo(inner)
         self.calls.clear()
+        forms = {'log_like': ex.log(mc), 'p': mc}
+        if (seed + R) % 4 < 2:
+            # a formula without draws listed after the Monte-Carlo ones (the object still needs its draws)
+            forms['det'] = ex.Variable('x0') * 2 + 1
+            ctx.probe('formula without draws listed last')
         if seed_as_kwarg:
-            b = bio.BIOGEME(self.db, {'log_like': ex.log(mc), 'p': mc}, parameters=p, seed=seed)
+            b = bio.BIOGEME(self.db, forms, parameters=p, seed=seed)
         else:
-            b = bio.BIOGEME(self.db, {'log_like': ex.log(mc), 'p': mc}, parameters=p)
+            b = bio.BIOGEME(self.db, forms, parameters=p)
         calls = list(self.calls)
         self.check_shapes(calls, R, 'BIOGEME construction')
         gens = self.generations(calls, R)
